@@ -277,6 +277,94 @@ def rule_e(R, ctx):
     R.ob("C04.e", fn, "redone-shift", ok, "redone is shifted by `offset` in the split half: %s" % ok)
 
 
+def rule_i(R, ctx, rid="C04.i"):
+    Y = ctx.yrs
+    R.rule(rid, "R-PROV partial integration: when a block arrives whose first `offset` clocks are already known, Item::trim re-anchors "
+                "it — id.clock += offset, len -= offset, content = content.splice(offset), left = the item ending at clock-1 of the "
+                "same client (get_item_clean_end), origin = last id of that left — and integrate_gc / integrate_skip shift clock and "
+                "length by the same offset; every one of these writes takes the function's own offset parameter. A missed write "
+                "makes the kept part claim ids or an origin that other replicas (which received the block whole) do not see")
+    fn = Y.fn("yrs::block::Item::trim")
+    v = FnView(fn)
+    ws = {}
+    for i, j, st in fn.stmts():
+        d = st["dst"]
+        if isinstance(d, dict) and d["p"] and isinstance(d["p"][-1], str):
+            ws.setdefault(d["p"][-1].rsplit(".", 1)[-1], []).append(simp_deep(v.terms.rvalue(st["rv"], 16)))
+
+    def is_param(t, idx):
+        t = simp_deep(t)
+        while t[0] == "cast":
+            t = simp_deep(t[2])
+        return t[0] == "param" and t[1] == idx
+
+    def binop(t, ops):
+        for x in walk(t):
+            if x[0] == "bin" and x[1] in ops:
+                return x
+            if x[0] == "call" and any(x[1].endswith(o) for o in ops if o.startswith("::")):
+                return ("bin", x[1], x[2][0], x[2][1])
+        return None
+
+    OFF = 2  # (&mut self, offset, store)
+    t = (ws.get("clock") or [None])[0]
+    b = binop(t, ("Add", "AddWithOverflow", "::wrapping_add")) if t else None
+    R.ob(rid, fn, "id.clock+=offset", bool(b) and term_has_field(b[2], "ID.clock") and is_param(b[3], OFF),
+         "id.clock := %s" % (sshow(t) if t else "<no write>"))
+    t = (ws.get("len") or [None])[0]
+    b = binop(t, ("Sub", "SubWithOverflow", "::wrapping_sub")) if t else None
+    R.ob(rid, fn, "len-=offset", bool(b) and term_has_field(b[2], "Item.len") and is_param(b[3], OFF),
+         "len := %s" % (sshow(t) if t else "<no write>"))
+    t = (ws.get("content") or [None])[0]
+    sp = [x for x in walk(t) if x[0] == "call" and x[1].endswith("ItemContent::splice")] if t else []
+    R.ob(rid, fn, "content=splice(offset)", bool(sp) and term_has_field(sp[0][2][0], "Item.content") and is_param(sp[0][2][1], OFF),
+         "content := %s" % (sshow(t) if t else "<no write>"))
+    t = (ws.get("left") or [None])[0]
+    ce = [x for x in walk(t) if x[0] == "call" and x[1].endswith("BlockStore::get_item_clean_end")] if t else []
+    okl = False
+    if ce:
+        idt = simp_deep(ce[0][2][1])
+        if idt[0] == "call" and idt[1].endswith("ID::new"):
+            c0, c1 = idt[2]
+            bb = binop(c1, ("Sub", "SubWithOverflow"))
+            okl = field_path(simp_deep(c0))[-2:] == ["id", "client"] and bool(bb) and term_has_field(bb[2], "ID.clock") and \
+                simp(bb[3])[:2] == ("const", 1)
+    R.ob(rid, fn, "left=clean_end(client,clock-1)", okl, "left := %s" % (sshow(t) if t else "<no write>"))
+    t = (ws.get("origin") or [None])[0]
+    oko = False
+    if t:
+        # Option::map(self.left, closure -> last_id)
+        clos = [c for c in Y.with_closures(fn) if c is not fn]
+        lastid = any(c.calls_to("yrs::block::Item::last_id") for c in clos) or term_has_call(t, "yrs::block::Item::last_id")
+        oko = term_has_field(t, "Item.left") and lastid
+    R.ob(rid, fn, "origin=left.last_id", oko, "origin := %s" % (sshow(t) if t else "<no write>"))
+    # the only caller passes its own offset under offset > 0
+    ii = Y.fn(TXN + "::integrate_item")
+    iv = FnView(ii)
+    tc = ii.calls_to("yrs::block::Item::trim")
+    R.floor(rid, "Item::trim call in integrate_item", len(tc), 1)
+    for cs, site in ordinal_sites(tc):
+        a = simp_deep(iv.arg(cs, 1))
+        R.ob(rid, ii, site, a[0] == "param" and ii.local_name(a[1]) == "offset",
+             "trim is called with integrate_item's own offset: %s" % sshow(a), cs.loc())
+    for path, var in ((TXN + "::integrate_gc", "gc"), (TXN + "::integrate_skip", "skip")):
+        f = Y.fn(path)
+        fv = FnView(f)
+        got = {}
+        for i, j, st in f.stmts():
+            d = st["dst"]
+            if isinstance(d, dict) and d["p"] and isinstance(d["p"][-1], str) and "BlockRange." in d["p"][-1]:
+                got[d["p"][-1].rsplit(".", 1)[-1]] = simp_deep(fv.terms.rvalue(st["rv"], 12))
+        b1 = binop(got.get("clock"), ("Add", "AddWithOverflow")) if got.get("clock") else None
+        b2 = binop(got.get("len"), ("Sub", "SubWithOverflow")) if got.get("len") else None
+
+        def offp(t):
+            t = simp_deep(t)
+            return t[0] == "param" and f.local_name(t[1]) == "offset"
+        R.ob(rid, f, "shift-by-offset", bool(b1) and bool(b2) and offp(b1[3]) and offp(b2[3]),
+             "clock := %s; len := %s" % (sshow(got.get("clock")) if got.get("clock") else None, sshow(got.get("len")) if got.get("len") else None))
+
+
 def check(ctx, R):
     R.run("C04.a", rule_a, ctx)
     R.run("C04.b", rule_b, ctx)
@@ -286,4 +374,5 @@ def check(ctx, R):
     R.run("C04.f", lambda R, c: shared.idempotent_delete(R, c, "C04.f"), ctx)
     R.run("C04.g", lambda R, c: c03.rule_b(R, c, "C04.g"), ctx)
     R.run("C04.h", lambda R, c: c01.rule_f(R, c, "C04.h"), ctx)
+    R.run("C04.i", rule_i, ctx)
     return {}
